@@ -54,3 +54,29 @@ Example C40_nonvacuous : exists g, reachable 3 g /\
   leader_in (g_st g 0) 1 /\ committed_prefix (g_st g 0) = [ex_entry] /\
   committed_prefix (g_st g 1) = [ex_entry] /\ term (g_st g 2) = 0.
 Proof. exact ex_run. Qed.
+
+(* C40_raft_sms_partial: what is proved towards State Machine Safety (C40_raft_sms), for every
+   execution of the network (any delay / reordering / duplication / loss, fail-stop crashes) over
+   the transcribed raft_step.  MISSING for the full property: Log Matching
+   (`log_matching_stmt`), Leader Completeness (`leader_completeness_stmt`) and the reduction
+   "SMS follows from Leader Completeness + Log Matching"; they are stated in Proto/RaftNet.v,
+   evaluated on every simulated cluster run of the real raft_step by the correspondence check
+   (executable forms `log_matching_b`, `sms_pair_b`), but not proved.  Paxos is not covered. *)
+Theorem C40_raft_sms_partial : forall n g1 g2, reachable n g1 -> gsteps n g1 g2 ->
+  (forall m, term (g_st g1 m) <= term (g_st g2 m)) /\
+  (forall m c, term (g_st g1 m) = term (g_st g2 m) ->
+               voted_for (g_st g1 m) = Some c -> voted_for (g_st g2 m) = Some c) /\
+  (forall m, commit (g_st g1 m) <= commit (g_st g2 m)) /\
+  (forall a b t, a < n -> b < n -> leader_in (g_st g1 a) t -> leader_in (g_st g2 b) t -> a = b) /\
+  (forall m t, leader_in (g_st g1 m) t -> term (g_st g2 m) = t ->
+               rrole (g_st g2 m) = Leader /\ exists e, log (g_st g2 m) = log (g_st g1 m) ++ e).
+Proof.
+  intros n g1 g2 R S. repeat split.
+  - exact (C40_raft_term_monotone n g1 g2 S).
+  - exact (C40_raft_vote_once_per_term n g1 g2 S).
+  - exact (C40_raft_commit_monotone n g1 g2 S).
+  - exact (C40_raft_election_safety n g1 g2 R S).
+  - exact (proj1 (C40_raft_leader_append_only n g1 g2 S m t H H0)).
+  - exact (proj2 (C40_raft_leader_append_only n g1 g2 S m t H H0)).
+Qed.
+Print Assumptions C40_raft_sms_partial.
